@@ -122,6 +122,170 @@ def run_async(case):
     return asyncio.run(main())
 
 
+# ------------------------------------------------------------------------------------------ C18
+# end to end: the real Python client encodes the requests, the real Rust client (harness/rs-mqtt,
+# binary path in the case) answers them, the packets it emitted are fed unchanged into the Python
+# dispatcher.
+import subprocess
+E2E_PREFIX = "dt/dev"
+STARTUP = 48
+GAP = 22
+
+
+def e2e_call(m, rq):
+    """the public API call of one request -> canonical result (run inside a thread / task)"""
+    api = rq["api"]
+    if api == "get":
+        return m.get(rq["path"])
+    if api == "set":
+        return m.set(rq["path"], rq["value"])
+    if api == "list":
+        return m.list(rq["path"])
+    if api == "dump":
+        return m.dump(rq["path"])
+    raise ValueError(api)
+
+
+def e2e_canon(rq, r):
+    if rq["api"] == "get":
+        return ["value", json.dumps(r, separators=(",", ":"), ensure_ascii=False)]
+    if rq["api"] == "set":
+        return ["value", r]
+    if rq["api"] == "list":
+        return ["values", r]
+    return ["none"] if r is None else ["value", repr(r)]
+
+
+def e2e_schedule(case, sent):
+    steps = [dict(dt=400) for _ in range(STARTUP)]
+    for (topic, props, kw) in sent:
+        msg = dict(topic=topic, payload=list((kw.get("payload") or "").encode()) if isinstance(kw.get("payload") or "", str) else list(kw.get("payload")))
+        if kw.get("retain"):
+            msg["retain"] = True
+        rt = getattr(props, "ResponseTopic", None) if props is not None else None
+        cd = getattr(props, "CorrelationData", None) if props is not None else None
+        if rt is not None:
+            msg["resp"] = rt
+        if cd is not None:
+            msg["cd"] = list(cd)
+        steps.append(dict(dt=100, msg=msg))
+        steps += [dict(dt=100) for _ in range(GAP)]
+    return dict(settings=case["settings"], init=case.get("init", {}), prefix=E2E_PREFIX, buffer=8192, kind="e2e", steps=steps)
+
+
+def e2e_device(case, sent):
+    sched = e2e_schedule(case, sent)
+    p = subprocess.run([case["rs_bin"]], input=json.dumps(sched) + "\n", stdout=subprocess.PIPE, stderr=subprocess.PIPE, text=True, timeout=600)
+    if p.returncode != 0:
+        raise RuntimeError("device harness failed: " + p.stderr[-500:])
+    res = json.loads(p.stdout.split("\n")[0])
+    packets, records = [], []
+    for k, st in enumerate(res["steps"]):
+        if k < STARTUP:
+            continue
+        if (k - STARTUP) % (GAP + 1) == 0:
+            records.append(dict(state=st["before"]["state"], handled=st.get("handled") is not None, oracle=st.get("oracle"), can_publish=st["before"]["can_publish"]))
+        for pk in st.get("packets", []):
+            if pk["t"] == "pub" and not pk["dup"]:
+                packets.append(pk)
+    return packets, records, res["steps"][-1]["after"]["state"] if "after" in res["steps"][-1] else "?"
+
+
+def e2e_props(pk):
+    p = Properties(PacketTypes.PUBLISH)
+    if pk["props"]["cd"] is not None:
+        p.CorrelationData = bytes(pk["props"]["cd"])
+    if pk["props"]["user"]:
+        p.UserProperty = [tuple(x) for x in pk["props"]["user"]]
+    return p
+
+
+def run_e2e_sync(case):
+    c = PahoClient()
+    m = ms.Miniconf(c, E2E_PREFIX)
+    results = [None] * len(case["requests"])
+    threads = []
+    for i, rq in enumerate(case["requests"]):
+        def work(i=i, rq=rq):
+            try:
+                results[i] = e2e_canon(rq, e2e_call(m, rq))
+            except BaseException as e:  # noqa
+                results[i] = classify(e)
+        n0 = len(c.sent)
+        t = threading.Thread(target=work, daemon=True)
+        t.start()
+        t0 = time.time()
+        while len(c.sent) == n0 and time.time() - t0 < 5:
+            time.sleep(0.0005)
+        threads.append(t)
+    packets, records, final = e2e_device(case, c.sent)
+    for pk in packets:
+        m._dispatch(None, None, MQTTMessage(pk["topic"], bytes(pk["payload"]), e2e_props(pk)))
+    for t in threads:
+        t.join(0.3 if any(r is None for r in results) else 0.01)
+    return [[r if r is not None else ["pending"] for r in results], len(m._inflight), records, [[pk["topic"], pk["payload"], pk["props"]] for pk in packets], sent_json(c.sent)]
+
+
+def sent_json(sent):
+    out = []
+    for (topic, props, kw) in sent:
+        cd = getattr(props, "CorrelationData", None) if props is not None else None
+        out.append(dict(topic=topic, payload=kw.get("payload"), retain=bool(kw.get("retain")),
+                        resp=getattr(props, "ResponseTopic", None) if props is not None else None, cd=list(cd) if cd is not None else None))
+    return out
+
+
+def run_e2e_async(case):
+    async def main():
+        client = aiomqtt.Client()
+        m = ma.Miniconf(client, E2E_PREFIX)
+        await asyncio.sleep(0)
+        results = [None] * len(case["requests"])
+
+        async def work(i, rq):
+            try:
+                api = rq["api"]
+                if api == "get":
+                    r = await m.get(rq["path"])
+                elif api == "set":
+                    r = await m.set(rq["path"], rq["value"])
+                elif api == "list":
+                    r = await m.list(rq["path"])
+                else:
+                    r = await m.dump(rq["path"])
+                results[i] = e2e_canon(rq, r)
+            except asyncio.CancelledError:
+                results[i] = ["pending"]
+            except BaseException as e:  # noqa
+                results[i] = classify(e)
+        tasks = []
+        for i, rq in enumerate(case["requests"]):
+            n0 = len(client.sent)
+            tasks.append(asyncio.ensure_future(work(i, rq)))
+            for _ in range(200):
+                if len(client.sent) != n0:
+                    break
+                await asyncio.sleep(0)
+        packets, records, final = e2e_device(case, client.sent)
+        for pk in packets:
+            m._dispatch(aiomqtt.Message(pk["topic"], bytes(pk["payload"]), e2e_props(pk)))
+            await asyncio.sleep(0)
+        for _ in range(5):
+            await asyncio.sleep(0)
+        for t in tasks:
+            if not t.done():
+                t.cancel()
+        await asyncio.gather(*tasks, return_exceptions=True)
+        n = len(m._inflight)
+        m.listener.cancel()
+        try:
+            await m.listener
+        except BaseException:  # noqa
+            pass
+        return [[r if r is not None else ["pending"] for r in results], n, records, [[pk["topic"], pk["payload"], pk["props"]] for pk in packets], sent_json(client.sent)]
+    return asyncio.run(main())
+
+
 def run_normalize(case):
     p = _Path()
     out = []
@@ -139,6 +303,8 @@ def main():
         try:
             if case["kind"] == "dispatch":
                 r = (run_sync if case["client"] == "sync" else run_async)(case)
+            elif case["kind"] == "e2e":
+                r = (run_e2e_sync if case["client"] == "sync" else run_e2e_async)(case)
             else:
                 r = run_normalize(case)
             print(json.dumps(r))
